@@ -500,3 +500,65 @@ fn closest_setup(nb: usize) {
 fn c09_closest_setup_b3() {
     closest_setup(3);
 }
+
+// ---------------------------------------------------------------------------------------------
+// C08 (table level, kernels): the arithmetic that decides where a node goes and when a bucket
+// may split. Loop-free / 20-iteration integer code, all inputs symbolic.
+// ---------------------------------------------------------------------------------------------
+
+/// bucket_placement: the bucket index is the shared-prefix length, capped at the last bucket.
+#[kani::proof]
+fn c08_bucket_placement_kernel() {
+    let same: usize = kani::any();
+    let nb: usize = kani::any();
+    kani::assume(same <= MAX_BUCKETS && nb >= 1 && nb <= MAX_BUCKETS);
+    let p = bucket_placement(same, nb);
+    assert!(p < nb, "C08: placement outside the table");
+    assert!(p == if same < nb { same } else { nb - 1 }, "C08: a node is placed in a bucket that does not match its shared prefix");
+    // only the last bucket (the one covering the local id) may split, and never beyond 160 buckets
+    let idx: usize = kani::any();
+    kani::assume(idx < nb);
+    assert!(can_split_bucket(nb, idx) == (idx == nb - 1 && nb < MAX_BUCKETS), "C08: a bucket other than the last one splits, or the table grows beyond 160 buckets");
+    kani::cover!(same >= nb, "node belongs to a bucket that does not exist yet");
+}
+
+/// leading_bit_count: number of leading bits two ids share = position of their first differing bit.
+#[kani::proof]
+#[kani::unwind(22)]
+fn c08_leading_bit_count_kernel() {
+    let a: [u8; 20] = kani::any();
+    let bit: usize = kani::any();
+    kani::assume(bit <= MAX_BUCKETS);
+    let tail: [u8; 20] = kani::any();
+    // b = a with bit `bit` flipped and arbitrary changes behind it (bit = 160: b = a)
+    let mut b = a;
+    if bit < MAX_BUCKETS {
+        let byte = bit / 8;
+        let mask: u8 = 0x80 >> (bit % 8);
+        b[byte] ^= mask;
+        // bits after `bit` in the same byte and all later bytes: arbitrary
+        let low: u8 = mask.wrapping_sub(1);
+        b[byte] = (b[byte] & !low) | (tail[byte] & low);
+        let mut k = 0;
+        while k < 20 {
+            if k > byte {
+                b[k] = tail[k];
+            }
+            k += 1;
+        }
+    }
+    let n = leading_bit_count(NodeId::from(a), NodeId::from(b));
+    assert!(n == bit, "C08: shared-prefix length computed wrongly");
+    // flip_bit flips exactly that bit
+    if bit < MAX_BUCKETS {
+        let f: [u8; 20] = NodeId::from(a).flip_bit(bit).into();
+        let mut k = 0;
+        while k < 20 {
+            let want = if k == bit / 8 { a[k] ^ (0x80 >> (bit % 8)) } else { a[k] };
+            assert!(f[k] == want, "C08: flip_bit changes the wrong bit");
+            k += 1;
+        }
+    }
+    kani::cover!(bit == MAX_BUCKETS, "equal ids");
+    kani::cover!(bit == 159, "ids differing in the last bit only");
+}
